@@ -14,6 +14,7 @@ import (
 	"verifmc/evid"
 	"verifmc/explore"
 	"verifmc/hx"
+	"verifmc/netrows"
 	"verifmc/vrt"
 )
 
@@ -324,5 +325,9 @@ func main() {
 	explore.Main(run, scs, evid.Pick(run, 150*time.Second, 20*time.Minute))
 	run.Assume("scheduling points at every channel/lock/atomic/select operation; data races are decided separately by C14")
 	run.Set("preemption_bound", pb)
+	// free-running rows for sshswarm / quicswarm (outside the controlled scheduler)
+	if netrows.Run(run) {
+		run.Assume("sshswarm and quicswarm rows run free on loopback: Receive / ServeAsk / Ask cancelled before or during the call, and 30 messages told next to a receiver that is cancelled and restarted continuously; waits of 20 s only give up")
+	}
 	run.Finish()
 }
